@@ -106,6 +106,16 @@ func goMapEnumerate(obj *object, all bool, each func(string) bool) {
 	goObj := obj.value.(*goMapObject)
 	keys := goObj.value.MapKeys()
 	for _, key := range keys {
+		if key.Kind() == reflect.Interface {
+			key = key.Elem()
+		}
+		switch key.Kind() {
+		case reflect.Bool, reflect.String, reflect.Float32, reflect.Float64,
+			reflect.Int, reflect.Int8, reflect.Int16, reflect.Int32, reflect.Int64,
+			reflect.Uint, reflect.Uint8, reflect.Uint16, reflect.Uint32, reflect.Uint64:
+		default:
+			continue // A key without a textual form (a struct, nil, ...) is not a property.
+		}
 		name := toValue(key).String()
 		if lookup, ok := goObj.toKey(name); !ok || !goObj.value.MapIndex(lookup).IsValid() {
 			// A key that can't be found again through its name (NaN, a struct)
